@@ -28,14 +28,16 @@ func concScenario(pre, kind string) *Scenario {
 		sc.Nodes = []NodeSpec{{Name: "n1", Pod: "p1", Kind: "plain2"}}
 	case "with-workload":
 		sc.Nodes = []NodeSpec{{Name: "n1", Pod: "p1", Kind: "plain2"}}
-		sc.Wls = []WlSpec{{Node: "n1", Req: "u", App: "a"}}
+		sc.Wls = []WlSpec{{Node: "n1", Req: "m", App: "a"}} // 2 of the node's 4 memory units
 	}
 	op := OpSpec{Kind: kind, Pod: "p1", App: "a"}
 	switch kind {
 	case "addnode", "removenode":
 		op.Nodes = []string{"n1"}
 	case "create":
-		op.Strategy, op.Count, op.Req = "AUTO", 1, "u"
+		op.Strategy, op.Count, op.Req = "AUTO", 1, "m" // 2 more units: fits only if nothing else grew meanwhile
+	case "realloc":
+		op.Targets, op.Delta = []int{0}, "mem+" // 1 more unit
 	case "remove":
 		op.Targets, op.Force = []int{0}, true
 	}
@@ -73,7 +75,7 @@ func TestClusterConc(t *testing.T) {
 	}
 	exec := func(in *concIn, kind string, b *Built, id string) []Event {
 		sc := concScenario(in.Pre, kind)
-		if kind == "remove" && len(b.IDs) == 0 {
+		if (kind == "remove" || kind == "realloc") && len(b.IDs) == 0 {
 			return []Event{{"ev": "Return", "op": id, "kind": kind, "class": "noop"}}
 		}
 		return env.Exec(sc, b, id, 15*time.Second)
